@@ -607,7 +607,32 @@ def max_workers_rule(e: ast.AST, np_param: str, what: str) -> str:
             and isinstance(e.body, ast.Constant) and e.body.value is None
             and isinstance(e.orelse, ast.Name) and e.orelse.id == np_param):
         return "MWAutoElseGiven"
+    if (isinstance(e, ast.IfExp) and isinstance(e.test, ast.Compare) and len(e.test.ops) == 1
+            and isinstance(e.test.ops[0], ast.Eq) and isinstance(e.test.left, ast.Name) and e.test.left.id == np_param
+            and isinstance(e.test.comparators[0], ast.Constant) and e.test.comparators[0].value == "auto"
+            and isinstance(e.orelse, ast.Name) and e.orelse.id == np_param):
+        # min(<cpu count>, len(<tasks>))  /  max(1, min(...))
+        def capped(x):
+            if call_name(x) != "min" or len(x.args) != 2 or x.keywords:
+                return False
+            kinds = sorted("len" if call_name(a) == "len" else "cpu" if is_cpu_count(a) else "?" for a in x.args)
+            return kinds == ["cpu", "len"]
+        b = e.body
+        if capped(b):
+            return "MWAutoCapped"
+        if call_name(b) == "max" and len(b.args) == 2 and not b.keywords and any(
+                isinstance(a, ast.Constant) and a.value == 1 for a in b.args) and any(capped(a) for a in b.args):
+            return "MWAutoCappedFloor"
     raise TranslateError(f"{what}: unsupported max_workers expression {ast.unparse(e)}")
+
+
+def is_cpu_count(e: ast.AST) -> bool:
+    """os.cpu_count() / os.process_cpu_count() / multiprocessing.cpu_count(), optionally `... or 1`."""
+    if isinstance(e, ast.BoolOp) and isinstance(e.op, ast.Or) and len(e.values) == 2 \
+            and isinstance(e.values[1], ast.Constant) and e.values[1].value == 1:
+        e = e.values[0]
+    return call_name(e) in ("os.cpu_count", "os.process_cpu_count", "multiprocessing.cpu_count", "cpu_count") \
+        and not e.args and not e.keywords
 
 
 def iter_root(e: ast.AST, params: list[str], what: str) -> str:
@@ -649,6 +674,27 @@ def parallel_block(stmts, env0, np_param, params, what, result=None, initialised
             continue
         if isinstance(s, ast.With) and with_stmt is None:
             with_stmt = s
+            continue
+        if isinstance(s, ast.If) and with_stmt is None and s.orelse:
+            # if <test>: [x = list(x);] v = a  else: v = b      ==      v = a if <test> else b
+            def branch(stmts_):
+                out = {}
+                for b_ in strip_noise(stmts_):
+                    if not (isinstance(b_, ast.Assign) and len(b_.targets) == 1 and isinstance(b_.targets[0], ast.Name)):
+                        raise TranslateError(f"{what}: unsupported statement in the parallel branch: {ast.unparse(b_)[:80]}")
+                    n_ = b_.targets[0].id
+                    if n_ in params and call_name(b_.value) == "list" and len(b_.value.args) == 1 \
+                            and _same_name(b_.value.args[0], n_) and not b_.value.keywords:
+                        continue  # materialising the iterated argument keeps its order
+                    if n_ in params or n_ in out:
+                        raise TranslateError(f"{what}: unsupported assignment in the parallel branch: {ast.unparse(b_)[:80]}")
+                    out[n_] = inline(b_.value, env)
+                return out
+            a_, b_ = branch(s.body), branch(s.orelse)
+            if set(a_) != set(b_) or not a_:
+                raise TranslateError(f"{what}: the branches of `if {ast.unparse(s.test)}` assign different names")
+            for n_ in a_:
+                env[n_] = ast.IfExp(test=inline(s.test, env), body=a_[n_], orelse=b_[n_])
             continue
         raise TranslateError(f"{what}: unsupported statement in the parallel branch: {ast.unparse(s)[:80]}")
     if with_stmt is None or len(with_stmt.items) != 1:
@@ -974,10 +1020,36 @@ def _fresh_dict_expr(e: ast.AST, name: str, state: str):
 class _OptionWrites:
     """Flow-insensitive-in-loops, path-joining scan of a function body for one option parameter."""
 
-    def __init__(self, name, what):
-        self.name, self.what = name, what
+    def __init__(self, name, what, kind="dict"):
+        self.name, self.what, self.kind = name, what, kind
         self.writes_on_arg: list[str] = []
         self.writes: list[str] = []
+
+    def unknown(self, msg):
+        """A use that is not understood: irrelevant once a write into the caller's object has been seen (the fact
+        is false already), otherwise fail closed."""
+        if not self.writes_on_arg:
+            raise TranslateError(f"{self.what}: {msg}")
+
+    def fresh_expr(self, e, state):
+        if self.kind == "dict":
+            return _fresh_dict_expr(e, self.name, state)
+        # objects (droplets): <name>.copy(), <Class>.from_droplet(<name>, ...), copy.copy / deepcopy build new objects
+        if isinstance(e, ast.Call):
+            f = ast.unparse(e.func)
+            if f == f"{self.name}.copy" and not e.args:
+                return "FRESH"
+            if f in ("copy.copy", "copy.deepcopy", "deepcopy") or f.endswith(".from_droplet") or f.endswith(".from_data"):
+                return "FRESH"
+            return None
+        if _is_name(e, self.name):
+            return state
+        if isinstance(e, ast.IfExp):
+            a, b = self.fresh_expr(e.body, state), self.fresh_expr(e.orelse, state)
+            if a is None or b is None:
+                return None
+            return "FRESH" if a == b == "FRESH" else "ARG"
+        return None
 
     def uses(self, node):
         return any(_is_name(n, self.name) for n in ast.walk(node))
@@ -994,6 +1066,19 @@ class _OptionWrites:
                 continue
             par = parents.get(n)
             if par is None:
+                continue
+            if self.kind == "object" and isinstance(par, ast.Attribute) and par.value is n:
+                gp = parents.get(par)
+                if isinstance(gp, ast.Call) and gp.func is par:
+                    if par.attr == "copy" or state == "FRESH":
+                        continue
+                    self.unknown(f"method call on the caller's `{name}`: {ast.unparse(gp)[:60]}")
+                    continue
+                if isinstance(par.ctx, ast.Load):
+                    continue  # attribute read
+                self.writes.append("." + par.attr)
+                if state == "ARG":
+                    self.writes_on_arg.append("." + par.attr)
                 continue
             if isinstance(par, ast.Attribute) and par.value is n:
                 gp = parents.get(par)
@@ -1019,11 +1104,13 @@ class _OptionWrites:
             if isinstance(par, ast.Dict):
                 continue  # {**name}
             if isinstance(par, ast.Call) and ast.unparse(par.func) in ("dict", "len", "copy.copy", "copy.deepcopy",
-                                                                        "deepcopy", "isinstance", "bool"):
+                                                                        "deepcopy", "isinstance", "bool", "type"):
                 continue
+            if self.kind == "object" and isinstance(par, ast.Call) and ast.unparse(par.func).endswith(".from_droplet"):
+                continue  # builds a new droplet from the given one
             if state == "FRESH":
                 continue  # the task's own copy may go anywhere
-            raise TranslateError(f"{self.what}: the caller's `{name}` object escapes: {ast.unparse(par)[:60]}")
+            self.unknown(f"the caller's `{name}` object escapes: {ast.unparse(par)[:60]}")
 
     def block(self, stmts, state: str) -> str:
         for s in stmts:
@@ -1041,13 +1128,14 @@ class _OptionWrites:
         if isinstance(s, (ast.FunctionDef, ast.Lambda, ast.ClassDef)):
             if state == "FRESH":
                 return state
-            raise TranslateError(f"{self.what}: nested definition captures the caller's `{name}`")
+            self.unknown(f"nested definition captures the caller's `{name}`")
+            return state
         if isinstance(s, (ast.Assign, ast.AnnAssign)):
             targets = s.targets if isinstance(s, ast.Assign) else [s.target]
             value = s.value
             if len(targets) == 1 and _is_name(targets[0], name) and value is not None:
                 # rebinding the local name
-                v = _fresh_dict_expr(value, name, state)
+                v = self.fresh_expr(value, state)
                 if v is None:
                     raise TranslateError(f"{self.what}: `{name}` is rebound to {ast.unparse(value)[:60]}")
                 self.expr(value, state)
@@ -1058,11 +1146,15 @@ class _OptionWrites:
                     if state == "ARG":
                         self.writes_on_arg.append("[]=")
                     self.expr(t.slice, state)
+                elif self.kind == "object" and isinstance(t, ast.Attribute) and _is_name(t.value, name):
+                    self.writes.append("." + t.attr)
+                    if state == "ARG":
+                        self.writes_on_arg.append("." + t.attr)
                 elif self.uses(t):
                     raise TranslateError(f"{self.what}: unsupported assignment target involving `{name}`")
             if value is not None:
                 if _is_name(value, name) and state == "ARG":
-                    raise TranslateError(f"{self.what}: the caller's `{name}` object gets a second name")
+                    self.unknown(f"the caller's `{name}` object gets a second name")
                 self.expr(value, state)
             return state
         if isinstance(s, ast.AugAssign):
@@ -1118,7 +1210,12 @@ class _OptionWrites:
         if isinstance(s, (ast.Expr, ast.Return)):
             if s.value is not None:
                 if isinstance(s, ast.Return) and state == "ARG" and self.uses(s.value) and not isinstance(s.value, ast.Compare):
-                    raise TranslateError(f"{self.what}: the caller's `{name}` object is returned")
+                    if self.kind == "object" and _is_name(s.value, name):
+                        self.writes.append("returned")
+                        self.writes_on_arg.append("returned")  # the result IS the caller's object
+                        return state
+                    self.unknown(f"the caller's `{name}` object is returned")
+                    return state
                 self.expr(s.value, state)
             return state
         if isinstance(s, (ast.Raise, ast.Assert)):
@@ -1156,7 +1253,13 @@ def refine_options_facts(ia: ast.Module):
         sc.block(statements(fn), "ARG")
         writes += [f"{name}.{w}" for w in sc.writes]
         bad += [f"{name}.{w}" for w in sc.writes_on_arg]
-    return dict(dicts=dicts, writes=sorted(set(writes)), writes_on_arg=sorted(set(bad)), copies=not bad)
+    # the candidate droplet (second positional parameter)
+    cand = positional[1]
+    sc = _OptionWrites(cand, what, kind="object")
+    sc.block(statements(fn), "ARG")
+    return dict(dicts=dicts, writes=sorted(set(writes)), writes_on_arg=sorted(set(bad)), copies=not bad,
+                cand=cand, cand_writes=sorted(set(sc.writes)), cand_writes_on_arg=sorted(set(sc.writes_on_arg)),
+                cand_copies=not sc.writes_on_arg)
 
 
 # ---------------------------------------------------------------------------------------
@@ -1269,6 +1372,13 @@ def gen_glue() -> str:
       "... of which may hit the object the caller handed in")
     d("refine_copies_options", "bool", cbool(ro["copies"]),
       "every write happens after the name was rebound to a new dict: the caller's object is left alone")
+    d("refine_candidate_param", "string", cstr(ro["cand"]), "the candidate droplet handed to refine_droplet")
+    d("refine_candidate_writes", "list string", clist(cstr(x) for x in ro["cand_writes"]),
+      "attribute writes refine_droplet performs on (its binding of) that name")
+    d("refine_writes_caller_candidate", "list string", clist(cstr(x) for x in ro["cand_writes_on_arg"]),
+      "... of which may hit the caller's object (`returned`: the result is the caller's object itself)")
+    d("refine_copies_candidate", "bool", cbool(ro["cand_copies"]),
+      "the name is rebound to a copy / a new droplet (copy(), <Class>.from_droplet) before any write or return")
     return "\n".join(out) + "\n"
 
 
